@@ -11,8 +11,8 @@ for f in k['fixed']:
     seen.add(c)
     d = subprocess.run(['git', '-C', '/repo', 'show', '--format=', c, '--', '*.go', ':!*_test.go'], capture_output=True, text=True).stdout
     p = f'/verif/selftest/fix-{c}.diff'
-    if os.path.exists(f'/verif/selftest/reintro-{c}.diff'):
-        continue
+    if os.path.exists(f'/verif/selftest/reintro-{c}.diff') or os.path.exists(p):
+        continue  # existing variants are kept (some were adjusted by hand after later commits touched the same lines)
     if d.strip():
         open(p, 'w').write(d)
 print(len(seen), 'commits')
